@@ -15,68 +15,98 @@ let vres = function Some true -> "1" | Some false -> "0" | None -> "ERR"
 let in_range v = BZ.geq v BZ.one && BZ.lt v secp_n
 let last_byte sg = match List.rev sg with b :: _ -> [b] | [] -> []
 
+(* ---- argument forms.  A digest / signature / key-text argument is a form letter and a hex field:
+     b = a bytes object holding the field's bytes        h = the field's bytes as lower-case hex text
+     U = the same as upper-case hex text                 t = a str whose CHARACTERS are the field's bytes (ASCII) *)
+let ascii (s : string) : C13_model.byte list =
+  List.init (String.length s) (fun i -> C13_model.zb (BZ.of_int (Char.code s.[i])))
+let parg form field =
+  let hex = if field = "-" then "" else field in
+  match form with
+  | 'b' -> PBytes (bytes_of_hex field)
+  | 'h' -> PText (ascii (String.lowercase_ascii hex))
+  | 'U' -> PText (ascii (String.uppercase_ascii hex))
+  | 't' -> PText (bytes_of_hex field)
+  | _ -> failwith "argument form"
+(* a digest token of a V source: plain hex = bytes, or a form letter h / U / t in front *)
+let parg_tok t =
+  if t <> "" && (t.[0] = 'h' || t.[0] = 'U' || t.[0] = 't') then parg t.[0] (String.sub t 1 (String.length t - 1))
+  else parg 'b' t
+
 (* ---- sessions.  signseq <mode> <d:msg:k|-:ht:form> ...      -> answers joined by ';'
                    vseq <mode> <src> <step> ...                 -> "ERR" (no object) | verdicts joined by ','
    src  = S|C:d:msg:k|-:ht:form | P:how:sig:keyarg|- | V:r:s:dg|*:keyarg|- | N:form:sig (steps may end in :sig)
-   step = <entry><dgform>:<dg|*>:<keyarg|*>       keyarg = K|H|B|X|Y|T<sec hex>  V|W<decimal private key> *)
+   step = <entry><dgform>:<dg|*>:<keyarg|*>       keyarg = K|H|B|X|Y|Z|T<hex>  V|W<decimal private key>
+   every digest / signature / key-text argument goes through the argument-form layer of Model/Ecdsa.v (parg) *)
 let colon t = String.split_on_char ':' t
 let sign_ans = function
   | Some ((r, s), der) -> str_z r ^ " " ^ str_z s ^ " " ^ hex_of_bytes der
   | None -> "ERR"
 let sign_req_of t = match colon t with
-  | [d; m; k; ht; form] when form.[0] <> 'U' ->
-      { sq_d = z_of d; sq_msg = bytes_of_hex m; sq_k = kopt k; sq_ht = z_of ht }
+  | [d; m; k; ht; form] ->
+      { sf_d = z_of d; sf_dg = parg form.[0] m; sf_k = kopt k; sf_ht = z_of ht }
   | _ -> failwith "sign step"
-let key_arg_of t =
+let fkey_of t =
   let body = String.sub t 1 (String.length t - 1) in
   match t.[0] with
-  | 'K' | 'H' -> KObj (bytes_of_hex body)
-  | 'B' -> KBytes (bytes_of_hex body)
-  | 'X' | 'Y' -> KText (bytes_of_hex body)
-  | 'T' -> KPoint (BZ.zero, BZ.zero)
-  | 'V' | 'W' -> KPriv (z_of body)
+  | 'K' | 'H' -> FK (KObj (bytes_of_hex body))
+  | 'B' -> FP (parg 'b' body)
+  | 'X' -> FP (parg 'h' body)
+  | 'Y' -> FP (parg 'U' body)
+  | 'Z' -> FP (parg 't' body)
+  | 'T' -> FK (KPoint (BZ.zero, BZ.zero))
+  | 'V' | 'W' -> FK (KPriv (z_of body))
   | _ -> failwith "key arg"
-let opt_key t = if t = "*" || t = "-" then None else Some (key_arg_of t)
-let opt_dg t = if t = "*" then None else Some (bytes_of_hex t)
+let key_arg_of t = key_of_fkey (fkey_of t)
+let opt_fkey t = if t = "*" || t = "-" then None else Some (fkey_of t)
+let opt_dg form t = if t = "*" then None else Some (parg form t)
+(* step = <entry><dgform>:<dg|*>:<keyarg|*>; entry A = by attribute assignment *)
 let step_of t = match colon t with
-  | [_; dg; ka] -> (opt_dg dg, opt_key ka)
+  | [h; dg; ka] -> ((h.[0] = 'A', opt_dg h.[1] dg), opt_fkey ka)
   | _ -> failwith "verify step"
+(* how a P source hands the signature over: b parse_bytes(bytes) / a parse(bytes) / x parse_hex(lower text) /
+   A parse(lower text) / u parse_hex(upper text) / w parse(upper text) / T parse_hex(text) / t parse(text) *)
+let sig_form_of_how = function
+  | "b" | "a" -> 'b' | "x" | "A" -> 'h' | "u" | "w" -> 'U' | "T" | "t" -> 't' | _ -> failwith "parse how"
 let src_of t = match colon t with
-  | ("S" | "C") :: rest -> SrcSign (sign_req_of (String.concat ":" rest))
-  | ["P"; _; sg; ka] -> SrcBytes (bytes_of_hex sg, opt_key ka)
-  | ["V"; r; s; dg; ka] -> SrcValues (z_of r, z_of s, opt_dg dg, opt_key ka)
+  | ["S" | "C"; d; m; k; ht; form] -> FSign (z_of d, parg form.[0] m, kopt k, z_of ht)
+  | ["P"; how; sg; ka] -> FBytes (parg (sig_form_of_how how) sg, opt_fkey ka)
+  | ["V"; r; s; dg; ka] -> FValues (z_of r, z_of s, (if dg = "*" then None else Some (parg_tok dg)), opt_fkey ka)
   | _ -> failwith "source"
+let parse_ans sg = function
+  | Some ((r, s), ht) when in_range r && in_range s ->
+      (* as_der_encoded(): the DER bytes that were parsed are kept; the raw form is re-encoded *)
+      let re = if List.length sg = 64 then der_enc r s @ [zb ht] else sg in
+      str_z r ^ " " ^ str_z s ^ " " ^ str_z ht ^ " " ^ hex_of_bytes re
+  | _ -> "ERR"
 
 let dispatch = function
   | "signseq" :: _ :: steps ->
-      String.concat ";" (List.map sign_ans (lib_sign_session (List.map sign_req_of steps)))
+      String.concat ";" (List.map sign_ans (lib_sign_session_forms (List.map sign_req_of steps)))
   | "vseq" :: _ :: src :: steps when String.length src > 1 && src.[0] = 'N' ->
       (match colon src with
-       | [_; _; sg] ->
-           let sg = bytes_of_hex sg in
+       | [_; sform; sg] ->
            String.concat "," (List.map (fun t ->
              (* a step may carry its own encoded signature as a 4th field *)
              let t, sg = match colon t with
-               | [h; dg; ka; own] -> (String.concat ":" [h; dg; ka], bytes_of_hex own)
+               | [h; dg; ka; own] -> (String.concat ":" [h; dg; ka], own)
                | _ -> (t, sg) in
              match step_of t with
-             | (Some dg, Some ka) -> vres (lib_verify_arg dg sg ka)
+             | ((_, Some dg), Some ka) -> vres (lib_verify_fkey dg (parg sform.[0] sg) ka)
              | _ -> failwith "omitted argument without an object") steps)
        | _ -> "BADREQ")
   | ["vsteppre"; r; s; dg; ka] ->      (* one step on the tree before fix C13-3 *)
       vres (lib_verify_step_prefix (z_of r) (z_of s) (bytes_of_hex dg) (key_arg_of ka))
   | "vseq" :: _ :: src :: steps ->
-      (match lib_verify_session (src_of src) (List.map step_of steps) with
+      (match lib_verify_session_forms (src_of src) (List.map step_of steps) with
        | None -> "ERR"
        | Some l -> String.concat "," (List.map vres l))
-  | ["sign"; d; m; "-"; ht; form] when form.[0] = 'U' ->
-      (match lib_sign_upper (z_of d) (bytes_of_hex m) (z_of ht) with
-       | Some ((r, s), der) -> str_z r ^ " " ^ str_z s ^ " " ^ hex_of_bytes der
-       | None -> "ERR")
-  | "sign" :: d :: m :: k :: ht :: _ ->
-      (match lib_sign (z_of d) (bytes_of_hex m) (kopt k) (z_of ht) with
-       | Some ((r, s), der) -> str_z r ^ " " ^ str_z s ^ " " ^ hex_of_bytes der
-       | None -> "ERR")
+  | ["sign"; d; m; k; ht; form] ->
+      sign_ans (lib_sign_forms (z_of d) (parg form.[0] m) (kopt k) (z_of ht))
+  | ["signupper"; d; m; ht] ->                  (* the function-level model of finding hex_case_changes_nonce *)
+      sign_ans (lib_sign_upper (z_of d) (bytes_of_hex m) (z_of ht))
+  | ["signbytes"; d; m; k; ht] ->               (* the function-level model on the digest bytes *)
+      sign_ans (lib_sign (z_of d) (bytes_of_hex m) (kopt k) (z_of ht))
   | "signpre" :: d :: m :: k :: ht :: _ ->
       (match lib_sign_prefix (z_of d) (bytes_of_hex m) (kopt k) (z_of ht) with
        | Some ((r, s), der) -> str_z r ^ " " ^ str_z s ^ " " ^ hex_of_bytes der
@@ -87,19 +117,28 @@ let dispatch = function
       (match lib_pub_point_lax (bytes_of_hex pk) with
        | None -> "ERR" ^ flags sg None
        | Some q -> vres (lib_verify (bytes_of_hex dg) sg q) ^ flags sg (Some q))
-  | "verify" :: dg :: sg :: pk :: _ ->
+  | ["verify"; dg; sg; pk; form] when String.length form = 3 ->
+      (* digest and signature as given (b / h / U / t); key: K = Key object, B = bytes, X / Y = lower / upper hex text,
+         Z = text whose characters are the field *)
+      let key = fkey_of (String.make 1 form.[2] ^ pk) in
+      let sga = parg form.[1] sg in
+      vres (lib_verify_fkey (parg form.[0] dg) sga key)
+      ^ flags (match sig_of_form sga with Some b -> b | None -> []) None
+  | "verifybytes" :: dg :: sg :: pk :: _ ->     (* the function-level model on the three byte strings *)
       let sg = bytes_of_hex sg in
       vres (lib_verify_key (bytes_of_hex dg) sg (bytes_of_hex pk)) ^ flags sg None
+  | ["meaning"; form; field] ->
+      (match arg_meaning (parg form.[0] field) with Some b -> hex_of_bytes b | None -> "NONE")
   | "specverify" :: dg :: sg :: pk :: _ ->
       vres (spec_verify_key (lib_z (bytes_of_hex dg)) (bytes_of_hex sg) (bytes_of_hex pk))
   | ["parse"; sg] ->
       let sg = bytes_of_hex sg in
-      (match lib_parse sg with
-       | Some ((r, s), ht) when in_range r && in_range s ->
-           (* as_der_encoded(): the DER bytes that were parsed are kept; the raw form is re-encoded *)
-           let re = if List.length sg = 64 then der_enc r s @ [zb ht] else sg in
-           str_z r ^ " " ^ str_z s ^ " " ^ str_z ht ^ " " ^ hex_of_bytes re
-       | _ -> "ERR") ^ flags sg None
+      parse_ans sg (lib_parse sg) ^ flags sg None
+  | ["parsef"; how; form; sg] ->                (* how = b parse_bytes / x parse_hex / a parse; the argument as given *)
+      let a = parg form.[0] sg in
+      let h = (match how with "b" -> HowBytes | "x" -> HowHex | "a" -> HowAny | _ -> failwith "parse how") in
+      let sgb = (match sig_of_form a with Some b -> b | None -> []) in
+      parse_ans sgb (lib_parse_forms h a) ^ flags sgb None
   | ["parsepre"; sg] ->
       (match lib_parse_prefix (bytes_of_hex sg) with
        | Some ((r, s), ht) when in_range r && in_range s -> str_z r ^ " " ^ str_z s ^ " " ^ str_z ht
